@@ -114,6 +114,7 @@ func layerConfig(s string) circuit.Config {
 
 func (managerSuite) Run(h map[string]string, ops []string) []string {
 	m := &circuit.Manager{}
+	longLivedVar := m.Var() // taken before anything is created, evaluated by every later `var` op
 	var sf *rolling.StatFactory
 	if ct := h["ctors"]; ct != "" && ct != "-" {
 		for _, t := range strings.Split(ct, "|") {
@@ -194,6 +195,22 @@ func (managerSuite) Run(h map[string]string, ops []string) []string {
 				var keys map[string]interface{}
 				if err := json.Unmarshal([]byte(m.Var().String()), &keys); err != nil {
 					return "bad-json"
+				}
+				// a handle obtained ONCE (expvar.Publish at start-up) must show the same circuits as a fresh one
+				if longLivedVar == nil {
+					longLivedVar = m.Var()
+				}
+				var old map[string]interface{}
+				if err := json.Unmarshal([]byte(longLivedVar.String()), &old); err != nil {
+					return "bad-json"
+				}
+				if len(old) != len(keys) {
+					return fmt.Sprintf("long-lived-var-handle-lists-%d-circuits-fresh-one-%d", len(old), len(keys))
+				}
+				for name := range keys {
+					if _, ok := old[name]; !ok {
+						return "long-lived-var-handle-misses-" + name
+					}
 				}
 				var l []int
 				for name := range keys {
